@@ -3,7 +3,7 @@
 d="$1"; wt=/tmp/verify_seed_wt.$$
 git -C /repo worktree add --detach -q "$wt" HEAD || exit 9
 cd /tmp
-sed "s#^\(\s*\)assert srctools.__file__.*#\1pass#" "$d/demo.py" > /tmp/vs_demo.$$.py
+sed -E "s#^([[:space:]]*)assert .*srctools\.__file__.*#\1pass#" "$d/demo.py" > /tmp/vs_demo.$$.py
 echo "--- without change:"; PYTHONPATH=$wt/src:/tmp/shim /venv/bin/python /tmp/vs_demo.$$.py > /tmp/vs_out.$$ 2>&1; echo "exit=$?"; tail -3 /tmp/vs_out.$$
 (cd $wt && (git apply "$d/patch.diff" 2>/dev/null || git apply --3way "$d/patch.diff")) || echo "PATCH DOES NOT APPLY"
 echo "--- with change:"; PYTHONPATH=$wt/src:/tmp/shim /venv/bin/python /tmp/vs_demo.$$.py > /tmp/vs_out.$$ 2>&1; echo "exit=$?"; tail -5 /tmp/vs_out.$$
